@@ -15,7 +15,70 @@ func pickAddr(r *hx.Rng, a stack.FAddr) stack.FAddr {
 	return a
 }
 
+// fanOut: every compatible remote feature of every peer subscribes to one server feature;
+// data changes interleaved with deletes, a disconnect and listings.
+func fanOut(r *hx.Rng) []hx.Zs {
+	focus := int64(r.Range(1, 3))
+	pl := stack.GenPlanFocus(r, focus)
+	h := append([]hx.Zs{}, pl.Prefix...)
+	h = append(h, pl.ConnectAll()...)
+	ctr := map[int64]int64{}
+	next := func(p int64) int64 { ctr[p]++; return 100*p + ctr[p] }
+	var servers []stack.LFeat
+	for _, f := range pl.Servers() {
+		if f.Type == focus && len(f.Fns) > 0 {
+			servers = append(servers, f)
+		}
+	}
+	if len(servers) == 0 {
+		return h
+	}
+	type sub struct {
+		p        int64
+		cli, srv stack.FAddr
+	}
+	var subs []sub
+	for _, srv := range servers[:min(len(servers), 2)] {
+		for _, p := range pl.Peers {
+			for _, f := range p.Feats {
+				if f.Ent[0] != 0 && r.Chance(5, 6) {
+					s := sub{p.Ski, p.Addr(f, r.Chance(2, 3)), srv.Addr(r.Chance(2, 3))}
+					subs = append(subs, s)
+					h = append(h, stack.OpSubCall(p.Ski, next(p.Ski), r.Bool(), s.cli, s.srv, srv.Type+1))
+				}
+			}
+		}
+	}
+	change := func() {
+		srv := servers[r.Intn(min(len(servers), 2))]
+		h = append(h, stack.OpSetData(srv.Ent, srv.Id, srv.Fns[r.Intn(len(srv.Fns))], int64(r.Range(1, 900))))
+	}
+	change()
+	for k := 0; k < r.Range(2, 8); k++ {
+		switch r.Pick(4, 3, 1, 1) {
+		case 0:
+			change()
+		case 1:
+			if len(subs) > 0 {
+				s := subs[r.Intn(len(subs))]
+				h = append(h, stack.OpSubDelete(s.p, next(s.p), r.Bool(), s.cli, s.srv))
+			}
+		case 2:
+			p := pl.Peers[r.Intn(len(pl.Peers))]
+			h = append(h, stack.OpDisconnect(p.Ski))
+		default:
+			p := pl.Peers[r.Intn(len(pl.Peers))]
+			h = append(h, stack.OpListSubs(p.Ski))
+		}
+	}
+	change()
+	return h
+}
+
 func gen(r *hx.Rng, tier string, i int) []hx.Zs {
+	if i%3 == 1 {
+		return fanOut(r)
+	}
 	pl := stack.GenPlan(r)
 	h := append([]hx.Zs{}, pl.Prefix...)
 	h = append(h, pl.ConnectAll()...)
